@@ -25,6 +25,7 @@ ASSUMPTIONS = [
     "part xmove: one object is renamed/deleted inside the root on one side while the other side moves it out (both ops before any sync step, any delivery order afterwards); judged: nothing outside a root is touched by any engine step, every engine mutation addresses a path inside its root; files and empty folders only (XMOVE_NONEMPTY_DIR, open finding KF-45); write || move-out is open finding KF-23 and is not generated",
     "mock providers; envelope hazards PATH_REUSE, DIRMOVE_ISOLATED, DIRMOVE_TOMB, XSIDE (a move-out counts as a delete, a move-in as a create)",
     "the pure gadget 'object moved out of the root while its peer is edited on the other side' is an open finding (KF-23) and excluded by XSIDE; it is replayed every run",
+    "an object that was moved out of a root is never moved back in (open finding KF-09c)",
     "MOVEIN_NONEMPTY_DIR: a non-empty folder is moved into a root only on an id-style side with provider-side event filtering (the mock then walks it); elsewhere its children are never announced (open finding KF-36)",
 ]
 OUTSIDE_DIRS = ("X", ".bak")          # suffixes appended to the root name: prefix siblings
@@ -76,6 +77,8 @@ def gen(d, tier):
         counter[0] += 1
         return "m%d" % counter[0]
     fresh_out = set()       # objects moved out of a root in the current window: not moved back in before the next quiet point
+    ever_out = set()        # objects that were inside a root once: never moved back in (open finding KF-09c: the engine
+                            # still remembers their id and mixes the returning object up with whatever took its name)
     guard = 0
     while done < n and guard < 80:
         guard += 1
@@ -94,7 +97,7 @@ def gen(d, tier):
             fresh_out.clear()
         elif k == "movein":
             news = [p for p in world.new_paths(s) if p.count("/") <= 2]
-            cands = [(p, v) for p, v in outside[s].items() if p not in fresh_out]
+            cands = [(p, v) for p, v in outside[s].items() if p not in fresh_out and p not in ever_out]
             if not news or not cands:
                 continue
             src, v = d.choice(sorted(cands, key=lambda x: x[0]))
@@ -144,6 +147,7 @@ def gen(d, tier):
             world.ever_deleted[1] |= gone
             acts.append(["u", s, "rename", p, "!" + dst])
             fresh_out.add(dst)
+            ever_out.add(dst)
             done += 1
         elif k == "outside":
             files = sorted(p for p, v in outside[s].items() if not isinstance(v, tuple))
@@ -169,6 +173,8 @@ def gen(d, tier):
                 outside[s][q] = outside[s].pop(p)
                 if p in fresh_out:
                     fresh_out.add(q)
+                if p in ever_out:
+                    ever_out.add(q)
         elif k == "declined":
             # private objects under the declined folder: never synced, never touched
             zs = world.__dict__.setdefault("zmodel", [dict(), dict()])[s]
